@@ -519,6 +519,9 @@ func init() {
 		"errors.Is":           func(fr *frame, a []value) value { return fr.w.errorsIs(fr, a) },
 		"runtime/debug.Stack": func(fr *frame, a []value) value { return []value(nil) },
 		"math.Ceil":           func(fr *frame, a []value) value { return fr.w.tb.FCeil(a[0].(T)) },
+		"math.Float64frombits": func(fr *frame, a []value) value { return fr.w.tb.FFromBits(a[0].(T)) },
+		"math.Float32frombits": func(fr *frame, a []value) value { return fr.w.tb.FFromBits(a[0].(T)) },
+		"math.IsNaN":           func(fr *frame, a []value) value { f := a[0].(T); return fr.w.tb.BNot(fr.w.tb.FCmp(sym.KFEq, f, f)) },
 		"reflect.TypeOf":      func(fr *frame, a []value) value { return iface{} },
 		"reflect.TypeFor":     func(fr *frame, a []value) value { return iface{} },
 		"reflect.DeepEqual": func(fr *frame, a []value) value {
